@@ -27,7 +27,8 @@ def pregen(check):
     if r.returncode != 0 or "end GeomV.C20" not in r.stdout:
         check.broken.append("route extractor failed on the current source: " + r.stderr.strip()[-300:])
         return
-    # fourth extractor: the PARAMETER switch of parseWKTParameter, the tail of wkt(), the use of the UNIT factor (translated), the path
+    # fourth extractor: the PARAMETER switch of parseWKTParameter, the tail of wkt(), the use of the UNIT factor, the switch of projString
+    # and its tail, the arithmetic of DeriveConstants, the constants epsln/sixth/ra4/ra6/deg2rad (translated), the path
     # expressions of shp.NewDecoder / (*Decoder).SR (translated)  ->  WktGen.lean (tie lemmas in ProofsWktGen.lean, ProofsPrj.lean)
     w = subprocess.run([gobin, "wktgen", vcheck.REPO], stdout=subprocess.PIPE, stderr=subprocess.PIPE, text=True)
     if w.returncode != 0 or "end GeomV.C20" not in w.stdout:
@@ -78,6 +79,10 @@ CFG = {
                                  # (WktGen.lean) and their ties to the model
                                  "genParamSet_eq", "genWktFinish_eq", "genUnitSet_eq", "parseWKTParameter_gen", "wkt_gen", "parseWKTUnit_gen",
                                  "wktgen_source_pins",
+                                 # phase 4: the switch of projString (every text / flag / numeric key) and its tail, the arithmetic of
+                                 # DeriveConstants and the numeric constants REGENERATED, with ties
+                                 "genProjKV_eq", "genLowerDatum_eq", "projString_gen", "genProjHandModelled_pin", "gen_consts_eq",
+                                 "genDeriveArith_eq", "deriveCore_gen", "genDeriveFrame_pin",
                                  # phase 4: which .prj a layer is read from — the path expressions of NewDecoder / Decoder.SR regenerated,
                                  # over an arbitrary file system and every layer name
                                  "C20_prj_siblings", "C20_prj_path", "C20_prj_own_file", "C20_prj_same_text_equal", "trimSuffix_append",
@@ -87,7 +92,7 @@ CFG = {
     "level": "proof",
     "trusted_base": [
         "Lean 4.33.0 kernel; axioms of every theorem printed by #print axioms must be within {propext, Classical.choice, Quot.sound}",
-        "model lean/GeomV/C20/Model.lean is tied to /repo/proj by the correspondence run (every field of the parsed SR bit for bit, Equal, nil-ness) on every check; its tables, the field lists of SR/datum, the case bodies of `equal` (translated statement by statement), the body of checkNotWGS and the workaround condition of NewTransform's closure (translated), the switch of parseWKTParameter, the statements of wkt() after the sections and the use of the UNIT factor in parseWKTUnit (translated), the path expressions of shp.NewDecoder / (*Decoder).SR (translated), and the deciding statements of NewTransform / its closure / (*Decoder).SR (source text) are regenerated from the Go source by the pregen hook",
+        "model lean/GeomV/C20/Model.lean is tied to /repo/proj by the correspondence run (every field of the parsed SR bit for bit, Equal, nil-ness) on every check; its tables, the field lists of SR/datum, the case bodies of `equal` (translated statement by statement), the body of checkNotWGS and the workaround condition of NewTransform's closure (translated), the switch of parseWKTParameter, the statements of wkt() after the sections, the use of the UNIT factor in parseWKTUnit, the switch of projString (all but five cases) and the statement after its loop, the arithmetic statements of DeriveConstants with their constants (translated), the path expressions of shp.NewDecoder / (*Decoder).SR (translated), and the deciding statements of NewTransform / its closure / (*Decoder).SR (source text) are regenerated from the Go source by the pregen hook",
         "strings.EqualFold against the ASCII constant \"WGS84\" is modelled by lean/GeomV/C20/Fold.lean (simple case folding: the other ASCII case, plus U+212A for K/k and U+017F for S/s)",
         "the transformation pipeline below the route decision is C08's model (lean/GeomV/C08/Proj*.lean), tied to the code by C08's check",
         "strconv.ParseFloat is correctly rounded (modelled by exact rational rounding); IEEE-754 binary64 arithmetic of Lean's Float equals Go's on amd64 (no fused multiply-add)",
